@@ -36,7 +36,7 @@ ASSUMPTIONS = [
     "'fail' may be listed under errors or failures, but exactly one of them",
 ]
 
-IDS = ("a", "b", "c", "r0/a")       # "r0/a" unrouted vs "a" on route "r0": distinct tests
+IDS = ("a", "b", "c", "r0/a", "")   # "r0/a" unrouted vs "a" on route "r0": distinct tests; "" is a legal id (PlaceHolder(""))
 ROUTES = (None, "r0", "r1")
 STATUSES = (None, "inprogress", "success", "fail", "skip", "xfail", "uxsuccess", "exists")
 FINAL = ("success", "fail", "skip", "xfail", "uxsuccess", "exists")
@@ -265,6 +265,12 @@ def run_one(tape, opts):
         elif e.method == "stopTest" and cur is not None:
             brackets.append(cur)
             cur = None
+    # "... or as incomplete when the run stops": the wrapped result hears of every test inside its run
+    meths = [e.method for e in world.events]
+    if meths.count("startTestRun") != 1 or meths.count("stopTestRun") != 1 or meths[0] != "startTestRun" or meths[-1] != "stopTestRun":
+        late = [m for m in meths[meths.index("stopTestRun") + 1:]] if "stopTestRun" in meths else []
+        out.violate("report-mismatch", "StreamToExtendedDecorator:run-bracket" + (":reports-after-stopTestRun" if late else ""),
+                    f"the wrapped result saw {meths[:3]} ... {meths[-4:]}; after its stopTestRun: {late[:6]}")
     ext_ok = False
     why = ""
     for restart in (True, False):
